@@ -24,6 +24,7 @@ import (
 	"strconv"
 	"strings"
 	"sync"
+	"time"
 
 	"github.com/openGemini/openGemini/engine"
 	"github.com/openGemini/openGemini/lib/fileops"
@@ -636,6 +637,7 @@ func runHistory(c *hx.Ctx, r *hx.Rng, idx int, workers int) error {
 	}
 
 	rc.on = true
+	panicked := ""
 	// A quarter of the histories first age the shard: 8-11 write+flush rounds without crash images,
 	// so that the WAL file sequence numbers of a partition grow past 9 (two-digit names) before
 	// the part of the history that is imaged.
@@ -696,12 +698,30 @@ func runHistory(c *hx.Ctx, r *hx.Rng, idx int, workers int) error {
 		rc.pauseAt = 0
 		rc.mu.Unlock()
 		if perr != "" {
-			return fmt.Errorf("flush failed: %s", perr)
+			// A panic in the flush is the process dying at that instant: the images taken so far
+			// (the last one is the disk as the panic leaves it) are recovered like any other crash
+			// image. The model knows no such step, so the extra line is a correspondence diff, and
+			// the panic is reported with the history that led to it.
+			panicked = strings.SplitN(perr, "\n", 2)[0]
+			pl := c.Emit("flush-outcome", "err "+panicked)
+			c.Violation(pl, "", fmt.Sprintf("history %d (%s, %d WAL partitions): the flush panicked: %s", idx, kinds, nParts, panicked))
+			c.Count("history:ended-by-a-panic-in-the-flush")
+			break
 		}
 	}
 	rc.on = false
-	if perr := hx.Safe(func() { sh.Close() }); perr != "" {
-		return fmt.Errorf("close failed: %s", perr)
+	if panicked == "" {
+		if perr := hx.Safe(func() { sh.Close() }); perr != "" {
+			return fmt.Errorf("close failed: %s", perr)
+		}
+	} else {
+		// the shard may be left with locks held: close it if that ends soon, otherwise abandon it
+		closed := make(chan struct{})
+		go func() { hx.Safe(func() { sh.Close() }); close(closed) }()
+		select {
+		case <-closed:
+		case <-time.After(10 * time.Second):
+		}
 	}
 	fileops.SetVerifObserver(nil)
 
